@@ -72,6 +72,10 @@ def write_parameters(model_dir, names, params, gz=False, pad=False):
         v = np.asarray(v)
         if v.dtype.kind in 'US':
             cols.append(_col(k, v.astype('S12'), '12A'))
+        elif v.dtype.kind in 'iu':          # a whole-number column stored as 64-bit integers (a grid index, a flag)
+            cols.append(_col(k, v.astype('i8'), 'K'))
+        elif v.dtype == np.float32:
+            cols.append(_col(k, v, 'E'))
         else:
             cols.append(_col(k, v.astype(float), 'D'))
     hdu0 = fits.PrimaryHDU()
